@@ -32,13 +32,15 @@ mod verif_c01_walker {
     fn raw(e: &PageTableEntry) -> u64 {
         unsafe { *(e as *const PageTableEntry as *const u64) }
     }
+    // Slot access goes through the typed Index impls (`table[i]` is `&entries[i]`, C08) and the
+    // word itself is read/written raw. Measured: a write with a symbolic index through a
+    // `*mut u64` cast of the table pointer makes CBMC model a byte-level update of the whole
+    // 4 KiB object (130 s per harness); the typed form takes a few seconds.
     fn raw_slot(t: *const PageTable, i: usize) -> u64 {
-        assert!(i < 512);
-        unsafe { *(t as *const u64).add(i) }
+        raw(unsafe { &(&*t)[i] })
     }
     fn set_raw_slot(t: *mut PageTable, i: usize, w: u64) {
-        assert!(i < 512);
-        unsafe { *(t as *mut u64).add(i) = w }
+        unsafe { (&mut *t)[i] = entry_from(w) }
     }
 
     /// Recording two-table mapping: frame `fa` -> `a`, every other frame -> `b`.
